@@ -231,6 +231,7 @@ def word_worker(args):
         import upword
 
         upword.COMPRESS = cfg["seed"] % 4 == 1 and not cfg.get("gram")  # classes stored compressed, with a colliding hash
+        upword.LOOSE_EMPTY = cfg["seed"] % 2 == 0  # rules that do not declare possibly-empty children but have empty ones: children kept
         root, pack, db = specrun.build(cfg)
         rec = Recorder(pack)
         raw = []
@@ -291,6 +292,7 @@ def word_worker(args):
         import upword
 
         upword.COMPRESS = False
+        upword.LOOSE_EMPTY = False
 
 
 def run(tier, seed, factor=1):
